@@ -52,6 +52,8 @@ def sweep(seed, tier):
                         cutsets += [sorted(rnd.sample(range(1, n), 2)) for _ in range(60)]
                     for cuts in cutsets:
                         yield {"bodies": bodies, "comp": comp, "upper": upper, "zero": zero, "cuts": cuts}
+                    for bs in (1, 2, 5, 8, 16):  # receive buffer smaller than a chunk
+                        yield {"bodies": bodies, "comp": comp, "upper": upper, "zero": zero, "cuts": [], "bufsize": bs}
 
 
 def replay(o, seed):
